@@ -17,7 +17,7 @@ ENGINE = "bfs"
 TECHNIQUE = "explicit-state BFS over operation/rollback histories of the real plan_state; differential oracle against a fresh planner replaying the surviving operations"
 RULE = (
     "every history up to the depth bound over {add (plain and forced), replace, remove of packages x-1[installed], x-2, "
-    "y-1[installed], y-2; add/drop of blockers !<a/x-2 and !a/y for two owners (so reference counts reach 2) and of a rewritten "
+    "y-1[installed], y-2, and replace of x-1[installed] by its equal-cpv copy from the source repository; add/drop of blockers !<a/x-2 and !a/y for two owners (so reference counts reach 2) and of a rewritten "
     "blocker registered under a key other than its own; hard reference; "
     "back reference; backtrack to every earlier operation boundary} is replayed on a fresh plan_state. In every state whose "
     "history contains a rollback the full planner state (slot table, limiters, package->choice bindings, per-owner blocker "
@@ -40,21 +40,22 @@ ASSUMPTIONS = [
     "it is not judged",
 ]
 BOUNDS = {
-    "quick": "22-event alphabet + rollback to every boundary, all histories to depth 5, partitioned by 2-event root prefixes",
+    "quick": "23-event alphabet + rollback to every boundary, all histories to depth 5, partitioned by 2-event root prefixes",
     "thorough": "same alphabet, all histories to depth 6 (depth 7 measured at ~46M transitions, outside the budget), partitioned by 2-event root prefixes",
 }
 
 # ------------------------------------------------------------------ universe
 
-PKGS = ("X1", "X2", "Y1", "Y2")
-PKG_SPEC = {"X1": ("a/x-1", True), "X2": ("a/x-2", False), "Y1": ("a/y-1", True), "Y2": ("a/y-2", False)}
+PKGS = ("X1", "X2", "Y1", "Y2", "X1S")
+# X1S: the source-repo copy of the installed version (equal cpv, so it shares X1's hash slot in every cpv-keyed mapping)
+PKG_SPEC = {"X1": ("a/x-1", True), "X2": ("a/x-2", False), "Y1": ("a/y-1", True), "Y2": ("a/y-2", False), "X1S": ("a/x-1", False)}
 BLOCKERS = {"BX": "!<a/x-2", "BY": "!a/y"}
 OWNERS = ("X1", "X2")
 HARDREF = "a/x"
 
 EVENTS = (
     [["add", "X1", True], ["add", "X1", False], ["add", "X2", False], ["add", "Y1", True], ["add", "Y2", False]]
-    + [["replace", "X2"], ["replace", "Y2"]]
+    + [["replace", "X2"], ["replace", "Y2"], ["replace", "X1S"]]
     + [["remove", "X1"], ["remove", "X2"], ["remove", "Y2"]]
     + [["block", o, b] for o in OWNERS for b in ("BX", "BY")]
     + [["unblock", o, b] for o in OWNERS for b in ("BX", "BY")]
@@ -432,7 +433,7 @@ def _excluded_twice(hist):
         if ev[0] == "remove":
             out[ev[1]] = out.get(ev[1], 0) + 1
         elif ev[0] == "replace":
-            old = {"X2": "X1", "Y2": "Y1"}[ev[1]]
+            old = {"X2": "X1", "Y2": "Y1", "X1S": "X1"}[ev[1]]
             out[old] = out.get(old, 0) + 1
     return any(n > 1 for n in out.values())
 
